@@ -62,6 +62,10 @@ struct Ctx {
     std::map<std::pair<int, int>, Call *> by_id;
     std::map<int, Call *> current; // per sim tid: log call in progress
     std::map<int, int> last_k;     // per logger thread: last k seen at the writer
+    std::map<int, int> kctr;       // per logger thread: calls made so far
+    std::map<int, int> thr_of_tid; // simulated thread -> logger index
+    bool alloc_logs = false;       // foreground mode: the allocator logs from its release path (re-entrant log call)
+    std::map<int, bool> in_hook;
     std::map<int, std::string> tid_repr; // per logger index: expected thread id text
     std::vector<Rec> recs;
     int epoch = 0, model_level = 0;
@@ -244,7 +248,8 @@ std::string make_body(uint64_t seed, size_t len) {
     return s;
 }
 
-void do_log(Ctx &c, int thr, int &k, const sim::Op &op) {
+void do_log(Ctx &c, int thr, const sim::Op &op) {
+    int &k = c.kctr[thr];
     int level = (int)(op.a % 6) + 1;
     int shape = (int)(op.b % 5);
     // subject: general, I/O, or an id nobody registered (rendered as "Unknown")
@@ -272,6 +277,7 @@ void do_log(Ctx &c, int thr, int &k, const sim::Op &op) {
     call.model_level = c.model_level;
     call.seq_invoke = sim::seq();
     call.real_invoke = sim::now_real();
+    Call *outer = c.current.count(sim::self()) ? c.current[sim::self()] : nullptr;
     c.current[sim::self()] = &call;
     sim::note(sim::PK_HARNESS, nullptr, 600 + level);
     std::string extra = body + "TRAILING-BYTES-NOT-TO-BE-PRINTED";
@@ -282,7 +288,7 @@ void do_log(Ctx &c, int thr, int &k, const sim::Op &op) {
         case 3: AWS_LOGF((enum aws_log_level)level, subject, "M%d.%d|%zu|%s", thr, k, len, body.c_str()); break;
         case 4: AWS_LOGF((enum aws_log_level)level, subject, "M%d.%d|100%%|%s", thr, k, body.c_str()); break;
     }
-    c.current[sim::self()] = nullptr;
+    c.current[sim::self()] = outer;
     call.returned = true;
     call.e1 = c.epoch;
     call.seq_return = sim::seq();
@@ -348,6 +354,24 @@ void do_format_direct(Ctx &c, int thr, const sim::Op &op) {
     aws_mem_release(c.alloc, buf); // guard bands are checked by the allocator
 }
 
+// An allocator that logs from its release path (a tracing allocator with the usual re-entrancy guard): with the foreground
+// channel the nested call is simply written next. Only armed while the releasing thread is inside a log call.
+void logging_release_hook(void *p, size_t size, void *ud) {
+    (void)p; (void)size;
+    Ctx &c = *(Ctx *)ud;
+    int tid = sim::self();
+    if (!c.alloc_logs || c.cleanup_returned || c.in_hook[tid]) return;
+    auto it = c.current.find(tid);
+    if (it == c.current.end() || !it->second || it->second->k < 0) return;
+    auto th = c.thr_of_tid.find(tid);
+    if (th == c.thr_of_tid.end()) return;
+    c.in_hook[tid] = true;
+    sim::probe("allocator_logged_from_release_path");
+    sim::Op op; op.kind = OP_LOG; op.thr = th->second; op.a = 0 /* FATAL: passes every filter but NONE */; op.b = 1; op.c = 9; op.d = (int64_t)size;
+    do_log(c, th->second, op);
+    c.in_hook[tid] = false;
+}
+
 struct ThreadArg { Ctx *c; int idx; };
 
 void logger_fn(void *arg) {
@@ -356,11 +380,11 @@ void logger_fn(void *arg) {
     char repr[32];
     snprintf(repr, sizeof repr, "%016lx", (unsigned long)aws_thread_current_thread_id());
     c.tid_repr[ta->idx] = repr;
-    int k = 0;
+    c.thr_of_tid[sim::self()] = ta->idx;
     for (const sim::Op &op : c.plan->ops) {
         if (op.thr != ta->idx) continue;
         switch (op.kind) {
-            case OP_LOG: do_log(c, ta->idx, k, op); break;
+            case OP_LOG: do_log(c, ta->idx, op); break;
             case OP_FORMAT_DIRECT: do_format_direct(c, ta->idx, op); break;
             case OP_SLEEP: sim::sleep_ns((uint64_t)op.a); break;
             case OP_YIELD: sim::yield(); break;
@@ -421,6 +445,8 @@ RunInfo run(const sim::Plan &plan) {
     g_date_format = 1; // the standard and no-alloc loggers always use ISO 8601
     sim::begin(plan);
     sim::set_observer(observer, &c);
+    c.alloc_logs = c.mode == MODE_EXT_FG && plan.get("alloc_logs", 0) != 0;
+    if (c.alloc_logs) simalloc::set_release_hook(logging_release_hook, &c);
     int cf = (int)plan.get("create_fail", 0);
     bool init_failed = false;
     if (c.mode == MODE_EXT_BG || c.mode == MODE_EXT_FG) {
@@ -547,6 +573,7 @@ void gen(uint64_t seed, int tier, sim::Plan &p) {
     int nl = (int)r.range(1, 4);
     p.cfg["nloggers"] = nl;
     p.cfg["init_level"] = r.pick(std::vector<int64_t>{6, 6, 6, 4, 3, 1, 0});
+    if (mode == 2 && r.chance(0.3)) p.cfg["alloc_logs"] = 1;
     if (mode <= 2) p.cfg["date_format"] = r.pick(std::vector<int64_t>{1, 1, 0, 2}); // formatter option: ISO 8601, RFC 822, ISO 8601 basic
     p.cfg["alloc_realloc"] = r.chance(0.8);
     p.cfg["alloc_calloc"] = r.chance(0.8);
